@@ -22,7 +22,8 @@ RULE = ("memories of 0-12 episodes over a small alphabet of owners / ids / vecto
         "vectors, zero vectors, missing vectors, missing/garbage timestamps, importance out of range), every k/threshold/"
         "tier-list/ranking/owner-scope setting from boundary-biased palettes (threshold equal to a score, cut-off equal to a "
         "timestamp), hybrid with generated GEL edges, lexical fusion + MMR, injected layer failures, slice cap and residual "
-        "cap in {0,1,tight,loose}; one seeded PRNG per component; a case is non-trivial when it hits at least one branch tag "
+        "cap in {0,1,tight,loose} (labels occurring only in hits beyond t2_k), reference clocks at arbitrary times of day with timestamps around the cut-off instant, "
+        "multi-call histories on one store with relabel/swap/add/remove edits, the parallel sharded path; one seeded PRNG per component; a case is non-trivial when it hits at least one branch tag "
         "(dedupe across tiers, early stop, threshold tie, scope filter, rerank reorder, residual cap ...); distinct by canonical JSON")
 ASSUMPTIONS = [
     "exact model = the sequential in-memory path: perf.enabled = false, t2.cache.enabled = false, reader/LanceDB paths off (cache is C05's); "
@@ -51,6 +52,9 @@ CLAIM = {
              "Parallel T2 path (perf.parallel gate open, >= 2 shards, 2-8 workers): not modelled exactly; component t2par evaluates the Lean monitors (count, distinct ids, scope, "
              "threshold, recency/archive rule, order, rerank = permutation, used = take t2_k, residual soundness/cap/completeness) on its T2Result; the global top-m cluster rule is waived "
              "there (monTierPar; recorded finding C09:t2:cluster-tier-per-shard) and exact outputs are not compared (C09:t2:qscore-tie-at-k-cut). "
+             "History stream t2hist: 2-4 calls on one long-lived store/index with edits in between (relabel same id, label swap, add/remove node, add episode, slice budget), "
+             "each call compared with the model on the CURRENT contents and with a fresh store (the stage is a function of the current contents; caches off). "
+             "Reference clocks at arbitrary times of day / UTC offsets with episode timestamps within seconds..hours of the cut-off instant in t2, t2real, t2par, t2idx, t2hist. "
              "Not modelled: LanceDB backend, embed-store reader, T2 cache (C05)."),
     "technique": "Lean 4 proofs (filters, stable insertion sort, permutation lemmas, loop invariants) + exact correspondence with oracle tables + Lean monitors on the real T2Result",
     "design_ref": "DESIGN.md §4 C11",
@@ -134,10 +138,15 @@ def gen_eps(rng: random.Random, n: int, now: dt.datetime, days: int, dom: Option
         e["text"] = " ".join(rng.choice(VOCAB) for _ in range(rng.choice([0, 1, 2, 3, 4])))
         r = rng.random()
         if r < 0.72:
-            off = rng.choice([0, 1, days, days, days + 1, max(0, days - 1), 29, 30, 31, 100, 364, 365, 366, 400, -1])
+            off = rng.choice([0, 1, days, days, days, days + 1, max(0, days - 1), 29, 30, 31, 100, 364, 365, 366, 400, -1])
             t = now - dt.timedelta(days=off)
-            if rng.random() < 0.2:
+            r2 = rng.random()
+            if r2 < 0.15:
                 t = t + dt.timedelta(microseconds=rng.choice([-1, 1, 500000]))
+            elif r2 < 0.5:
+                # within ±1 s / ±1 h / ±23 h 59 m of the instant (cut-off when off == days)
+                t = t + rng.choice([-1, 1]) * rng.choice([dt.timedelta(seconds=1), dt.timedelta(hours=1), dt.timedelta(hours=6),
+                                                           dt.timedelta(hours=23, minutes=59), dt.timedelta(hours=12)])
             if rng.random() < 0.15:
                 e["ts"] = t.replace(tzinfo=None).isoformat()  # naive
             else:
@@ -166,8 +175,18 @@ def gen_eps(rng: random.Random, n: int, now: dt.datetime, days: int, dom: Option
     return eps
 
 
+CLOCKS = ["2025-09-01T00:00:00Z", "2025-09-01T00:00:00Z", "2025-09-01T18:00:00Z", "2025-09-01T23:59:59Z",
+          "2025-09-01T00:00:01Z", "2025-09-01T12:30:15.250000Z", "2025-09-01T18:00:00+02:00", "2025-08-31T20:15:00-05:30",
+          "2025-09-01T06:00:00"]
+
+
+def _parse_now(s: str) -> dt.datetime:
+    return dt.datetime.fromisoformat(s.replace("Z", "+00:00")).astimezone(dt.timezone.utc)
+
+
 def gen_case(rng: random.Random, i: int, real: bool = False) -> dict:
-    now = dt.datetime(2025, 9, 1, tzinfo=dt.timezone.utc)
+    now_s = rng.choice(CLOCKS)
+    now = _parse_now(now_s)
     days = rng.choice([30, 30, 1, 0, 365, 7, -1])
     n = rng.choice([0, 1, 2, 3, 4, 5, 6, 6, 8, 8, 10, 12, 12])
     scope = rng.choice(["any", "any", "agent", "agent", "agent", "world", "Agent", "WORLD"])
@@ -233,7 +252,7 @@ def gen_case(rng: random.Random, i: int, real: bool = False) -> dict:
     if graphs and rng.random() < 0.1:
         active = active[:-1]          # a graph in the store that is not active
     case = {
-        "now": NOW, "scope": scope, "agent": agent,
+        "now": now_s, "scope": scope, "agent": agent,
         "k": rng.choice([1, 1, 2, 2, 3, 4, 5, 8, 10, 64]), "theta": f2b(theta), "days": days,
         "topM": rng.choice([0, 1, 1, 2, 3, 3, -1]), "tiers": tiers,
         "rank": [f2b(rng.choice([0.0, 0.05, 0.2, 0.75, 1.0, 1.0])) for _ in range(3)],
@@ -244,6 +263,22 @@ def gen_case(rng: random.Random, i: int, real: bool = False) -> dict:
         "graphs": graphs, "active": active, "text": rng.choice(["apple pie", "fruit", "", "the car of the bike"]),
         "real": real,
     }
+    if eps and rng.random() < 0.15:
+        # slice budget: a label that occurs only in SOME hits, t2_k in {0, 1, small, > hits}: residual may only come
+        # from the first max(0, t2_k) hits
+        for e in eps:
+            if rng.random() < 0.35:
+                e["text"] = (e["text"] + " " + rng.choice(["zebra", "Zebra", "ZEBRA crossing"])).strip()
+        if not graphs:
+            graphs.append(["g0", []])
+            case["active"] = ["g0"]
+        graphs[0][1] = [n for n in graphs[0][1] if n[0] != "n7"] + [["n7", rng.choice(["zebra", "Zebra"])]]
+        case["graphs"] = graphs
+        if graphs[0][0] not in case["active"]:
+            case["active"] = [graphs[0][0]] + list(case["active"])
+        case["t2k"] = rng.choice([0, 1, 1, 2, 3, 100])
+        case["cap"] = rng.choice([1, 2, 32, 32])
+        case["theta"] = f2b(-1.0)
     return case
 
 
@@ -421,8 +456,25 @@ def _refs(lst) -> List[dict]:
              "score": f2b(float(getattr(r, "score", 0.0))), "text": str(getattr(r, "text", ""))} for r in lst]
 
 
-def run_real(case: dict) -> Tuple[dict, dict]:
-    """Run the real stage; returns (observed output, model request)."""
+def build_live(case: dict) -> dict:
+    """Fresh index + graph store + state dict holding the case's contents."""
+    from clematis.memory.index import InMemoryIndex
+    from clematis.graph.store import InMemoryGraphStore, Node
+    idx = InMemoryIndex()
+    for e in case["eps"]:
+        idx.add(_ep_dict(e))
+    store = InMemoryGraphStore()
+    for gid, nodes in case["graphs"]:
+        store.ensure(gid)
+        store.upsert_nodes(gid, [Node(id=n[0], label=n[1]) for n in nodes])
+    state = {"mem_index": idx, "store": store, "active_graphs": list(case["active"]),
+             "graph": {"nodes": {}, "edges": {}}}
+    return {"idx": idx, "store": store, "state": state}
+
+
+def run_real(case: dict, live: Optional[dict] = None) -> Tuple[dict, dict]:
+    """Run the real stage; returns (observed output, model request).  `live` = a state kept across
+    calls (history stream); default: a fresh one."""
     import numpy as np
     import clematis.memory.index as mindex
     import clematis.engine.stages.t2.core as core
@@ -500,16 +552,11 @@ def run_real(case: dict) -> Tuple[dict, dict]:
         rec["lex"] = {str(k): f2b(float(v)) for k, v in out[0].items()}
         return out
 
-    idx = InMemoryIndex()
-    for e in case["eps"]:
-        idx.add(_ep_dict(e))
-    store = InMemoryGraphStore()
-    for gid, nodes in case["graphs"]:
-        store.ensure(gid)
-        store.upsert_nodes(gid, [Node(id=n[0], label=n[1]) for n in nodes])
-    edges = {f"{a}→{b}": {"weight": b2f(w)} for a, b, w in case["edges"]}
-    state = {"mem_index": idx, "store": store, "active_graphs": list(case["active"]),
-             "graph": {"nodes": {}, "edges": edges}}
+    if live is None:
+        live = build_live(case)
+    state = live["state"]
+    state["active_graphs"] = list(case["active"])
+    state["graph"] = {"nodes": {}, "edges": {f"{a}→{b}": {"weight": b2f(w)} for a, b, w in case["edges"]}}
     Ctx_ = type("Ctx", (), {})
     c = Ctx_()
     c.cfg = make_cfg(case)
@@ -663,6 +710,12 @@ class T2Comp(Component):
                 t.add("residual_cap_reached")
         if case["t2k"] is not None and impl_out["kUsed"] < len(hits):
             t.add("slice_clamped")
+            ku = max(0, impl_out["kUsed"])
+            labels = [n[1].lower() for g in _active_graphs(case) for n in g[1] if n[1]]
+            beyond = any(lb in h["text"].lower() for lb in labels for h in hits[ku:])
+            within = any(lb in h["text"].lower() for lb in labels for h in hits[:ku])
+            if beyond and not within:
+                t.add("label_only_beyond_t2k")
         if len(impl_out["tierSeq"]) < len(case["tiers"]):
             t.add("early_stop")
         if len(case["tiers"]) > 1 and hits:
@@ -717,7 +770,7 @@ class T2ParComp(T2Comp):
         c["par"] = {"workers": rng.choice([2, 2, 3, 4, 8])}
         if rng.random() < 0.55:
             # an earlier tier that yields j < k hits, a later tier with more fresh hits than the remaining room
-            now = dt.datetime(2025, 9, 1, tzinfo=dt.timezone.utc)
+            now = _parse_now(c["now"])
             k = rng.choice([2, 3, 3, 4, 5])
             j = rng.randrange(1, k)
             n_old = (k - j) + rng.choice([1, 2, 3, 5])
@@ -773,6 +826,220 @@ class T2ParComp(T2Comp):
         return sorted(t)
 
 
+def apply_edit(case: dict, ed: list) -> dict:
+    """Pure: the case contents after one edit of the history."""
+    c = copy.deepcopy(case)
+    op = ed[0]
+    if op in ("relabel", "add_node"):
+        _, gid, nid, label = ed
+        for g in c["graphs"]:
+            if g[0] == gid:
+                g[1] = [n for n in g[1] if n[0] != nid] + [[nid, label]]
+    elif op == "swap":
+        _, gid, a, b = ed
+        for g in c["graphs"]:
+            if g[0] == gid:
+                lab = {n[0]: n[1] for n in g[1]}
+                if a in lab and b in lab:
+                    for n in g[1]:
+                        if n[0] == a:
+                            n[1] = lab[b]
+                        elif n[0] == b:
+                            n[1] = lab[a]
+    elif op == "remove_node":
+        _, gid, nid = ed
+        for g in c["graphs"]:
+            if g[0] == gid:
+                g[1] = [n for n in g[1] if n[0] != nid]
+    elif op == "add_ep":
+        c["eps"] = c["eps"] + [ed[1]]
+        c["lex"][ed[1]["id"]] = f2b(0.0)
+    elif op == "t2k":
+        c["t2k"] = ed[1]
+    return c
+
+
+def apply_live(live: dict, case_after: dict, ed: list) -> None:
+    """The same edit on the LIVE store / index, through the store's own API."""
+    from clematis.graph.store import Node
+    store, idx = live["store"], live["idx"]
+    op = ed[0]
+    if op in ("relabel", "add_node", "swap"):
+        gid = ed[1]
+        ids = [ed[2]] if op != "swap" else [ed[2], ed[3]]
+        lab = {n[0]: n[1] for g in case_after["graphs"] if g[0] == gid for n in g[1]}
+        nodes = [Node(id=i, label=lab[i]) for i in ids if i in lab]
+        if nodes:
+            store.upsert_nodes(gid, nodes)
+    elif op == "remove_node":
+        g = store.get_graph(ed[1])
+        if ed[2] in g.nodes:
+            del g.nodes[ed[2]]
+            if hasattr(store, "_bump_etag"):
+                store._bump_etag(g)
+    elif op == "add_ep":
+        idx.add(_ep_dict(ed[1]))
+
+
+class T2HistComp(Component):
+    """HISTORY stream: 2-4 real `t2_semantic` calls on ONE store / index in one process with edits in between
+    (relabel a node keeping its id, swap two labels, add / remove a node, add an episode, change the slice budget),
+    caches off.  Every call is compared with the model on the CURRENT contents, with the Lean monitors, and with
+    the same call on a freshly built store / index (`history_independent`)."""
+    name = "t2hist"
+    budget = {"quick": 350, "thorough": 8000, "search": 4000}
+
+    def __init__(self):
+        self._t2 = T2Comp()
+        self._req: Dict[int, List[dict]] = {}
+
+    def gen(self, rng: random.Random, i: int) -> dict:
+        base = gen_case(rng, i)
+        base["theta"] = rng.choice([f2b(-1.0), f2b(-1.0), base["theta"]])
+        if not base["graphs"]:
+            base["graphs"] = [["g0", []]]
+            base["active"] = ["g0"]
+        gid = base["graphs"][0][0]
+        if gid not in base["active"]:
+            base["active"] = [gid] + list(base["active"])
+        words = ["apple", "banana", "fruit", "car", "bike", "pie", "zebra"]
+        have = {n[0] for n in base["graphs"][0][1]}
+        for nid in ["n:1", "n:2", "n:3"]:
+            if nid not in have:
+                base["graphs"][0][1].append([nid, rng.choice(words + ["Apple", "qqq"])])
+        steps = []
+        nids = [n[0] for n in base["graphs"][0][1]]
+        for _ in range(rng.choice([1, 1, 2, 3])):
+            eds = []
+            for _ in range(rng.choice([1, 1, 2])):
+                r = rng.random()
+                if r < 0.4:
+                    eds.append(["relabel", gid, rng.choice(nids), rng.choice(words + ["Apple", "qqq", "PIE", ""])])
+                elif r < 0.6 and len(nids) >= 2:
+                    a, b = rng.sample(nids, 2)
+                    eds.append(["swap", gid, a, b])
+                elif r < 0.7:
+                    nid = rng.choice(["n:8", "n:9", "n0"])
+                    eds.append(["add_node", gid, nid, rng.choice(words)])
+                    nids = nids + [nid] if nid not in nids else nids
+                elif r < 0.8 and len(nids) > 1:
+                    nid = rng.choice(nids)
+                    eds.append(["remove_node", gid, nid])
+                    nids = [x for x in nids if x != nid]
+                elif r < 0.93:
+                    now = _parse_now(base["now"])
+                    e = gen_eps(rng, 1, now, base["days"])[0]
+                    e["id"] = "h%d" % rng.randrange(4)
+                    e["text"] = " ".join(rng.choice(words) for _ in range(rng.choice([1, 2, 3])))
+                    if e.get("vec") is None:
+                        e["vec"] = [1.0, 0.0, 0.0]
+                    eds.append(["add_ep", e])
+                else:
+                    eds.append(["t2k", rng.choice([None, 0, 1, 2, 100])])
+            steps.append(eds)
+        return {"base": base, "steps": steps}
+
+    def _contents(self, case: dict) -> List[Tuple[dict, List[list]]]:
+        cur = copy.deepcopy(case["base"])
+        seq = [(cur, [])]
+        for eds in case["steps"]:
+            applied = []
+            for ed in eds:
+                cur = apply_edit(cur, ed)
+                applied.append((ed, cur))
+            seq.append((cur, applied))
+        return seq
+
+    def impl(self, case: dict) -> Any:
+        try:
+            seq = self._contents(case)
+            live = build_live(seq[0][0])
+            calls, fresh, reqs = [], [], []
+            for cur, applied in seq:
+                for ed, after in applied:
+                    apply_live(live, after, ed)
+                out, req = run_real(cur, live)
+                fo, _ = run_real(cur)
+                calls.append(out)
+                fresh.append(fo)
+                reqs.append(req)
+        except Exception as e:
+            return {"raised": f"{type(e).__name__}: {str(e)[:160]}"}
+        self._req[id(case)] = reqs
+        return {"calls": calls, "fresh": fresh}
+
+    def _requests(self, case: dict) -> List[dict]:
+        r = self._req.get(id(case))
+        if r is None:
+            r = []
+            for cur, _ in self._contents(case):
+                try:
+                    _, q = run_real(cur)
+                except Exception:
+                    q = build_request(cur, lambda raw, c=cur: scripted_score(c, raw), cur.get("lex", {}))
+                r.append(q)
+            self._req[id(case)] = r
+        return r
+
+    def request(self, case: dict) -> dict:
+        return {"c": "t2.hist", "calls": [dict(q, c="t2") for q in self._requests(case)]}
+
+    def compare(self, case, impl_out, model_out):
+        if not (isinstance(impl_out, dict) and "calls" in impl_out and isinstance(model_out, list)):
+            return super().compare(case, impl_out, model_out)
+        if len(impl_out["calls"]) != len(model_out):
+            return f"calls: impl={len(impl_out['calls'])} model={len(model_out)}"
+        for i, ((cur, _), io, mo) in enumerate(zip(self._contents(case), impl_out["calls"], model_out)):
+            d = self._t2.compare(cur, io, mo)
+            if d is not None:
+                return f"call[{i}]{d}"
+        return None
+
+    def monitor_requests(self, case, impl_out):
+        if "raised" in impl_out:
+            return []
+        rq = []
+        for (cur, _), q, io in zip(self._contents(case), self._requests(case), impl_out["calls"]):
+            self._t2._req[id(cur)] = q
+            rq += self._t2.monitor_requests(cur, io)
+        return rq
+
+    @staticmethod
+    def _obs(o: dict) -> dict:
+        return {k: o[k] for k in ("hits", "tierSeq", "kUsed", "residual", "hybridUsed", "combMax")}
+
+    def monitors(self, case, impl_out):
+        if "raised" in impl_out:
+            return [("stage_total", False, "t2_semantic raised " + impl_out["raised"])]
+        res = []
+        for i, (a, b) in enumerate(zip(impl_out["calls"], impl_out["fresh"])):
+            ok = self._obs(a) == self._obs(b)
+            res.append(("history_independent", ok,
+                        f"call {i} on the long-lived store: residual={a['residual']} hits={[h['id'] for h in a['hits']]}; "
+                        f"same contents, fresh store: residual={b['residual']} hits={[h['id'] for h in b['hits']]}"))
+            res += self._t2.monitors(case["base"], a)
+        return res
+
+    def tags(self, case, impl_out):
+        if "raised" in impl_out:
+            return ["raised"]
+        t = {"calls:%d" % len(impl_out["calls"])}
+        for eds in case["steps"]:
+            for ed in eds:
+                t.add("edit:" + ed[0])
+        rs = [tuple(o["residual"]) for o in impl_out["calls"]]
+        if len(set(rs)) > 1:
+            t.add("residual_changes_between_calls")
+        hs = [tuple(h["id"] for h in o["hits"]) for o in impl_out["calls"]]
+        if len(set(hs)) > 1:
+            t.add("hits_change_between_calls")
+        return sorted(t)
+
+    def shrink(self, case):
+        for i in range(len(case["steps"])):
+            yield dict(case, steps=case["steps"][:i] + case["steps"][i + 1:])
+
+
 class T2IdxComp(Component):
     """`InMemoryIndex._search_with_episodes` alone (one tier, explicit hints incl. archive quarters)."""
     name = "t2idx"
@@ -783,7 +1050,7 @@ class T2IdxComp(Component):
         tier = rng.choice(["exact_semantic", "cluster_semantic", "archive", "archive", "foo"])
         quarters = rng.choice([None, [], ["2025Q3"], ["2025Q3", "2024Q3"], ["2024Q4", "2025Q2", "2025Q3"], ["1999Q1"]])
         if quarters:
-            now = dt.datetime(2025, 9, 1, tzinfo=dt.timezone.utc)
+            now = _parse_now(c["now"])
             for e in c["eps"]:
                 if not isinstance(_ts_kind(e.get("ts")), int):
                     e["ts"] = (now - dt.timedelta(days=rng.choice([0, 1, 62, 63, 100, 300, 366]))).isoformat().replace("+00:00", "Z")
@@ -868,7 +1135,7 @@ class T2IdxComp(Component):
             yield dict(case, eps=eps[:i] + eps[i + 1:])
 
 
-COMPONENTS = [T2Comp(), T2RealComp(), T2IdxComp(), T2ParComp()]
+COMPONENTS = [T2Comp(), T2RealComp(), T2IdxComp(), T2ParComp(), T2HistComp()]
 
 
 SEAMS = [("clematis.memory.index", "_cosine"), ("clematis.engine.stages.t2.quality_ops", "_bm25_scores"),
